@@ -238,3 +238,19 @@ Theorem master_index_drawn : forall c h,
   index_drawn (noise_master (final c a_init h)) (noise_draws (final c a_init h)).
 Proof. exact index_drawn_history. Qed.
 Print Assumptions master_index_drawn.
+
+(* ---------------------------------------------------------------- front ends that re-stamp their output
+   gain followed by a cable delay, front_end(signal) = Signal(signal.times + D, gain*values): the output is not on
+   the grid the front end was given, and the final processed.with_times(times) must re-grid it.  When D is d
+   samples of the uniform window and the lead-in grid has at least d nodes, the system waveform over the window
+   is the front end applied to the sum of the received signals: gain * S(t_j - D). *)
+Theorem sys_delay_waveform : forall sc st ts D d,
+  noisy (ant_cfg sc) = false -> fe_taps sc = [] -> fe_shift sc = Some D ->
+  wf_window ts -> uniform ts ->
+  (d <= Z.to_nat (lead_in_n sc ts))%nat ->
+  D == nat_Q d * (t_second ts - t_first ts) ->
+  fst (s_full_waveform sc st ts) = st /\
+  sig_eq (snd (s_full_waveform sc st ts))
+         (mkSig ts (map (fun t => sum_at (signals (ant st)) (t - D) * fe_scale sc) ts)).
+Proof. exact sys_delay_waveform_lemma. Qed.
+Print Assumptions sys_delay_waveform.
